@@ -32,7 +32,7 @@ def tier(ctx):
         return dict(sizes=[(1, 1), (2, 1), (2, 2), (3, 2), (1, 1, 1), (2, 1, 1)], mods=["none", "tensor", "pert", "shear"],
                     nvar=1, nk=2, nmask=2, exhnb=4)
     return dict(sizes=[(1, 1), (2, 1), (2, 2), (3, 2), (3, 3), (1, 1, 1), (2, 1, 1), (2, 2, 1), (2, 2, 2), (3, 2, 2)],
-                mods=["none", "tensor", "pert", "shear"], nvar=2, nk=2, nmask=4, exhnb=6)
+                mods=["none", "tensor", "pert", "shear"], nvar=2, nk=2, nmask=4, exhnb=6, nti=3)
 
 
 def execute(ctx, cfgs, tag, inverter_of=lambda i: "python"):
